@@ -174,11 +174,16 @@ Proof.
   - intros a H. unfold err_from in H. apply bind_ok in H. destruct H as [tp [_ H]]. discriminate.
 Qed.
 
+Lemma bind_assoc : forall (A B C : Type) (r : res A) (k1 : A -> res B) (k2 : B -> res C),
+  bind (bind r k1) k2 = bind r (fun a => bind (k1 a) k2).
+Proof. intros. destruct r; reflexivity. Qed.
+
 (* ---- automation ---- *)
 Create HintDb pay.
 #[export] Hint Resolve slice_from_source sub_from_source : pay.
 
 Ltac pay_norm :=
+  try match goal with H : False |- _ => destruct H end;
   repeat match goal with
   | a : (_ * _)%type |- _ => destruct a
   | H : _ /\ _ |- _ => destruct H
@@ -203,6 +208,7 @@ Ltac pay_step :=
   lazymatch goal with
   | |- rinv _ _ (bind (match ?x with _ => _ end) _) => destruct x eqn:?; pay_fwd
   | |- rinv _ _ (bind (Ok _) _) => rewrite bind_Ok_l
+  | |- rinv _ _ (bind (bind _ _) _) => rewrite bind_assoc
   | |- rinv _ _ (bind _ _) =>
     eapply rinv_bind; [ pay_tac | let a := fresh "a" in let Ha := fresh "Ha" in
                                    intros a Ha; cbv beta in Ha; pay_norm ]
@@ -422,3 +428,172 @@ Lemma consume_reference_rinv : forall text s, sinv text s ->
   rinv text (fun o => match o with Some x => sinv text (snd x) | None => True end) (consume_reference text s).
 Proof. intros text s H. unfold consume_reference. pay_tac. Qed.
 #[export] Hint Resolve consume_reference_rinv : pay.
+
+(* ---- is_xml_str: the offending character is a byte / a character of the slice ---- *)
+Lemma in_sub_src : forall text a e x, In x (sub text a e) -> src_char text x.
+Proof.
+  intros text a e x Hin. unfold sub in Hin.
+  assert (Hin' : In x text).
+  { rewrite <- (firstn_skipn (N.to_nat a) text). apply in_or_app. right.
+    rewrite <- (firstn_skipn (N.to_nat (e - a)) (skipn (N.to_nat a) text)). apply in_or_app. left. exact Hin. }
+  apply In_nth_error in Hin'. destruct Hin' as [n Hn].
+  exists (N.of_nat n), 0.
+  assert (Hl : (n < length text)%nat) by (apply nth_error_Some; congruence).
+  split; [unfold tlen, blen; lia|]. right. apply nth_error_nth_N. rewrite Nat2N.id. exact Hn.
+Qed.
+
+Lemma is_xml_str_ascii_rinv : forall text l i, (forall x, In x l -> src_char text x) ->
+  rinv text (fun _ => True) (is_xml_str_ascii text l i).
+Proof.
+  intros text l. induction l as [|x r IH]; intros i Hl; cbn [is_xml_str_ascii].
+  - pay_tac.
+  - destruct (negb (byte_is_char x)).
+    + apply rinv_err_from. intro. cbn [payload_ok]. apply Hl. left. reflexivity.
+    + apply IH. intros y Hy. apply Hl. right. exact Hy.
+Qed.
+
+Lemma decode1_app : forall l l' r, decode1 l = Some r -> decode1 (l ++ l') = Some r.
+Proof.
+  intros l l' r. destruct l as [|b0 [|b1 [|b2 [|b3 t]]]]; cbn [app]; unfold decode1;
+    repeat match goal with |- context [if ?c then _ else _] => destruct c end;
+    try discriminate; auto.
+Qed.
+
+(* every character decoded at some offset of [l] is a character of the source *)
+Definition decodes_src (text l : bytes) : Prop :=
+  forall j c n, decode1 (skipn j l) = Some (c, n) -> src_char text c.
+
+Lemma decodes_src_skipn : forall text l m, decodes_src text l -> decodes_src text (skipn m l).
+Proof. intros text l m H j c n E. rewrite skipn_skipn' in E. eauto. Qed.
+
+Lemma decodes_src_sub : forall text a e, decodes_src text (sub text a e).
+Proof.
+  intros text a e j c n E. unfold sub in E.
+  rewrite skipn_firstn_comm, skipn_skipn' in E.
+  set (L := skipn (N.to_nat a + j) text) in *.
+  assert (E' : decode1 L = Some (c, n)).
+  { rewrite <- (firstn_skipn (N.to_nat (e - a) - j) L). apply decode1_app. exact E. }
+  exists (N.of_nat (N.to_nat a + j)), n. rewrite Nat2N.id. fold L. split; [|left; exact E'].
+  destruct (N.ltb_spec (N.of_nat (N.to_nat a + j)) (tlen text)) as [Hl|Hl]; [exact Hl|].
+  unfold L in E'. rewrite skipn_all2 in E' by (unfold tlen, blen in Hl; lia). discriminate.
+Qed.
+
+Lemma is_xml_str_unicode_rinv : forall text fuel l i, decodes_src text l ->
+  rinv text (fun _ => True) (is_xml_str_unicode text fuel l i).
+Proof.
+  intros text fuel. induction fuel as [|fu IH]; intros l i Hl; cbn [is_xml_str_unicode].
+  - pay_tac.
+  - destruct l as [|x r]; [pay_tac|].
+    destruct (decode1 (x :: r)) as [[c n]|] eqn:E; [|pay_tac].
+    destruct (negb (char_is_char c)).
+    + apply rinv_err_from. intro. cbn [payload_ok]. apply (Hl O c n). exact E.
+    + apply IH. apply decodes_src_skipn. exact Hl.
+Qed.
+
+Lemma is_xml_str_rinv : forall text sl vs, rinv text (fun _ => True) (is_xml_str text sl vs).
+Proof.
+  intros text sl vs. unfold is_xml_str. cbv zeta.
+  destruct (forallb (fun x => x <? 128) (slice_bytes text sl)).
+  - apply is_xml_str_ascii_rinv. intros x Hx. eapply in_sub_src; eauto.
+  - apply is_xml_str_unicode_rinv. apply decodes_src_sub.
+Qed.
+#[export] Hint Resolve is_xml_str_rinv : pay.
+
+(* ------------------------------------------------------------------ *)
+(** * The tokenizer, for any callback that keeps an invariant IC of its state and is given
+      only well-formed tokens *)
+
+Definition tok_ok (text : bytes) (tok : Tokenizer.token) : Prop :=
+  match tok with
+  | TElementStart p l _ => qn_ok text p l
+  | TElementEnd e _ => match e with EClose p l => qn_ok text p l | _ => True end
+  | _ => True
+  end.
+#[export] Hint Extern 1 (tok_ok _ _) => cbn [tok_ok]; auto : pay.
+
+Section Tok.
+Variable text : bytes.
+Variable C : Type.
+Variable ev : Tokenizer.token -> C -> res C.
+Variable IC : C -> Prop.
+Hypothesis Hev : forall tok c, tok_ok text tok -> IC c -> rinv text IC (ev tok c).
+
+Notation SC := (fun x : stream * C => sinv text (fst x) /\ IC (snd x)).
+
+Lemma parse_comment_rinv : forall s c, sinv text s -> IC c -> rinv text SC (parse_comment text C ev s c).
+Proof. intros s c H Hc. unfold parse_comment. pay_tac. Qed.
+Lemma parse_pi_rinv : forall s c, sinv text s -> IC c -> rinv text SC (parse_pi text C ev s c).
+Proof. intros s c H Hc. unfold parse_pi. pay_tac. Qed.
+#[local] Hint Resolve parse_comment_rinv parse_pi_rinv : pay.
+
+Lemma parse_misc_loop_rinv : forall fuel s c, sinv text s -> IC c ->
+  rinv text SC (parse_misc_loop text C ev fuel s c).
+Proof. induction fuel as [|fu IH]; intros s c H Hc; cbn [parse_misc_loop]; pay_tac. Qed.
+#[local] Hint Resolve parse_misc_loop_rinv : pay.
+Lemma parse_misc_rinv : forall s c, sinv text s -> IC c -> rinv text SC (parse_misc text C ev s c).
+Proof. intros s c H Hc. unfold parse_misc. pay_tac. Qed.
+#[local] Hint Resolve parse_misc_rinv : pay.
+
+Lemma parse_attribute_rinv : forall s, sinv text s -> rinv text (sinv text) (parse_attribute text s).
+Proof. intros s H. unfold parse_attribute. pay_tac. Qed.
+Lemma decl_consume_spaces_rinv : forall s, sinv text s -> rinv text (sinv text) (decl_consume_spaces text s).
+Proof. intros s H. unfold decl_consume_spaces. pay_tac. Qed.
+#[local] Hint Resolve parse_attribute_rinv decl_consume_spaces_rinv : pay.
+Lemma parse_declaration_rinv : forall s, sinv text s -> rinv text (sinv text) (parse_declaration text s).
+Proof. intros s H. unfold parse_declaration. pay_tac. Qed.
+#[local] Hint Resolve parse_declaration_rinv : pay.
+
+Lemma parse_external_id_rinv : forall s, sinv text s ->
+  rinv text (fun x => sinv text (snd x)) (parse_external_id text s).
+Proof. intros s H. unfold parse_external_id. pay_tac. Qed.
+#[local] Hint Resolve parse_external_id_rinv : pay.
+Lemma parse_entity_def_rinv : forall s g, sinv text s ->
+  rinv text (fun x => sinv text (snd x)) (parse_entity_def text s g).
+Proof. intros s g H. unfold parse_entity_def. pay_tac. Qed.
+#[local] Hint Resolve parse_entity_def_rinv : pay.
+Lemma parse_entity_decl_rinv : forall s c, sinv text s -> IC c ->
+  rinv text SC (parse_entity_decl text C ev s c).
+Proof. intros s c H Hc. unfold parse_entity_decl. pay_tac. Qed.
+Lemma consume_decl_rinv : forall s, sinv text s -> rinv text (sinv text) (consume_decl text s).
+Proof. intros s H. unfold consume_decl. pay_tac. Qed.
+Lemma parse_doctype_start_rinv : forall s, sinv text s -> rinv text (sinv text) (parse_doctype_start text s).
+Proof. intros s H. unfold parse_doctype_start. pay_tac. Qed.
+#[local] Hint Resolve parse_entity_decl_rinv consume_decl_rinv parse_doctype_start_rinv : pay.
+
+Lemma parse_doctype_loop_rinv : forall fuel start s c, sinv text s -> IC c ->
+  rinv text SC (parse_doctype_loop text C ev fuel start s c).
+Proof. induction fuel as [|fu IH]; intros start s c H Hc; cbn [parse_doctype_loop]; pay_tac. Qed.
+#[local] Hint Resolve parse_doctype_loop_rinv : pay.
+Lemma parse_doctype_rinv : forall s c, sinv text s -> IC c -> rinv text SC (parse_doctype text C ev s c).
+Proof. intros s c H Hc. unfold parse_doctype. pay_tac. Qed.
+#[local] Hint Resolve parse_doctype_rinv : pay.
+
+Notation BSC := (fun x : bool * stream * C => sinv text (snd (fst x)) /\ IC (snd x)).
+
+Lemma parse_element_loop_rinv : forall fuel ts s c, sinv text s -> IC c ->
+  rinv text BSC (parse_element_loop text C ev fuel ts s c).
+Proof. induction fuel as [|fu IH]; intros ts s c H Hc; cbn [parse_element_loop]; pay_tac. Qed.
+#[local] Hint Resolve parse_element_loop_rinv : pay.
+Lemma parse_element_rinv : forall s c, sinv text s -> IC c -> rinv text BSC (parse_element text C ev s c).
+Proof. intros s c H Hc. unfold parse_element. pay_tac. Qed.
+Lemma parse_cdata_rinv : forall s c, sinv text s -> IC c -> rinv text SC (parse_cdata text C ev s c).
+Proof. intros s c H Hc. unfold parse_cdata. pay_tac. Qed.
+Lemma parse_close_element_rinv : forall s c, sinv text s -> IC c ->
+  rinv text SC (parse_close_element text C ev s c).
+Proof. intros s c H Hc. unfold parse_close_element. pay_tac. Qed.
+Lemma parse_text_rinv : forall s c, sinv text s -> IC c -> rinv text SC (parse_text text C ev s c).
+Proof. intros s c H Hc. unfold parse_text. pay_tac. Qed.
+#[local] Hint Resolve parse_element_rinv parse_cdata_rinv parse_close_element_rinv parse_text_rinv : pay.
+
+Lemma parse_content_loop_rinv : forall fuel depth s c, sinv text s -> IC c ->
+  rinv text SC (parse_content_loop text C ev fuel depth s c).
+Proof. induction fuel as [|fu IH]; intros depth s c H Hc; cbn [parse_content_loop]; pay_tac. Qed.
+#[local] Hint Resolve parse_content_loop_rinv : pay.
+Lemma parse_content_rinv : forall s c, sinv text s -> IC c -> rinv text SC (parse_content text C ev s c).
+Proof. intros s c H Hc. unfold parse_content. pay_tac. Qed.
+#[local] Hint Resolve parse_content_rinv : pay.
+
+Lemma parse_document_rinv : forall dtd c, IC c -> rinv text IC (parse_document text C ev dtd c).
+Proof. intros dtd c Hc. unfold parse_document. pay_tac. Qed.
+
+End Tok.
